@@ -690,4 +690,29 @@ impl nervusdb_query::WriteableGraph for WriteTxn<'_> {
     fn staged_created_nodes_with_labels(&self) -> Vec<(InternalNodeId, Vec<String>)> {
         self.inner.staged_created_nodes_with_labels()
     }
+
+    fn staged_edges_of(&self, node: InternalNodeId) -> Vec<EdgeKey> {
+        self.inner
+            .staged_edges_of(node)
+            .into_iter()
+            .map(|e| EdgeKey {
+                src: e.src,
+                rel: e.rel,
+                dst: e.dst,
+            })
+            .collect()
+    }
+
+    fn is_node_deleted_in_txn(&self, node: InternalNodeId) -> bool {
+        self.inner.is_node_deleted_in_txn(node)
+    }
+
+    fn is_edge_deleted_in_txn(&self, edge: EdgeKey) -> bool {
+        self.inner
+            .is_edge_deleted_in_txn(nervusdb_storage::snapshot::EdgeKey {
+                src: edge.src,
+                rel: edge.rel,
+                dst: edge.dst,
+            })
+    }
 }
